@@ -88,3 +88,54 @@ package main
 //@ func main
 //@   property C19
 //@   assert@before:Run called("Set")
+
+// ---------------------------------------------------------------------------------------
+// C08 (consequence) — gen-test-params emits parameters the circuits accept: the Merkle part of the acceptance
+// predicates of C01 / C02 holds for the emitted roots, commitments and paths (the hash part is C08 proper).
+// Uses the contracts of the off-chain tree (C18). Domain: 0 <= depth <= 32 and the indices written fit the tree.
+// ---------------------------------------------------------------------------------------
+
+//@ func cmd:gen-test-params
+//@   property C08 C19
+//@   let mode = cli.flagStr(context, "mode")
+//@   let d = cli.flagInt(context, "tree-depth")
+//@   let B = cli.flagInt(context, "batch-size")
+//@   when 0 <= d && d <= 32 && 0 <= B && B <= 1073741824
+//@   when mode == "insertion" ==> B <= bits.pow2(d)
+//@   when mode == "deletion" ==> 2 * B <= bits.pow2(d)
+//@   ensures result == nil ==> (mode == "insertion" || mode == "deletion")
+//@   reveal merkle.insRoot
+//@   lemmas wf_dep wf_value_field leaf_unfold samePath_eq samePath_refl insValid_split insValid_end insValid_ext delValid_split delValid_end delValid_ext delRoot_split delRoot_end delRoot_ext bit_lt_pow2 pow2_pos pow2_mono pow256_32
+//@   loop 1
+//@     invariant 0 <= i && i <= B && treeDepth == d && batchSize == B
+//@     invariant ptree.wf(tree.root) && ptree.dep(tree.root) == d
+//@     invariant len(params.IdComms) == B && len(params.MerkleProofs) == B && params.StartIndex == 0 && inField(params.PreRoot)
+//@     invariant forall k :: 0 <= k && k < i ==> len(params.MerkleProofs[k]) == d
+//@     invariant forall k :: 0 <= k && k < B ==> 0 <= params.IdComms[k] && params.IdComms[k] <= B
+//@     invariant forall j :: i <= j && j < bits.pow2(d) ==> ptree.leaf(tree.root, j) == 0
+//@     invariant merkle.insValid(0, params.PreRoot, params.IdComms, params.MerkleProofs, d, i)
+//@     invariant ptree.value(tree.root) == merkle.insRoot(0, params.PreRoot, params.IdComms, params.MerkleProofs, d, i)
+//@   loop 2
+//@     invariant 0 <= i && i <= 2 * B && treeDepth == d && batchSize == B
+//@     invariant ptree.wf(tree.root) && ptree.dep(tree.root) == d
+//@     invariant len(params.DeletionIndices) == B && len(params.IdComms) == B && len(params.MerkleProofs) == B
+//@     invariant forall j :: 0 <= j && j < i ==> ptree.leaf(tree.root, j) == j + 1
+//@     invariant forall j :: i <= j && j < bits.pow2(d) ==> ptree.leaf(tree.root, j) == 0
+//@   loop 3
+//@     invariant 0 <= i && i <= B && treeDepth == d && batchSize == B
+//@     invariant ptree.wf(tree.root) && ptree.dep(tree.root) == d && inField(params.PreRoot)
+//@     invariant len(params.DeletionIndices) == B && len(params.IdComms) == B && len(params.MerkleProofs) == B
+//@     invariant forall k :: 0 <= k && k < i ==> len(params.MerkleProofs[k]) == d
+//@     invariant forall k :: 0 <= k && k < B ==> 0 <= params.IdComms[k] && params.IdComms[k] <= 2 * B
+//@     invariant forall k :: 0 <= k && k < i ==> params.DeletionIndices[k] == 2 * k
+//@     invariant forall j :: 0 <= j && j < 2 * B ==> ptree.leaf(tree.root, j) == ((j % 2 == 0 && j < 2 * i) ? 0 : j + 1)
+//@     invariant merkle.delValid(params.PreRoot, params.DeletionIndices, params.IdComms, params.MerkleProofs, d, i)
+//@     invariant ptree.value(tree.root) == merkle.delRoot(params.PreRoot, params.DeletionIndices, params.IdComms, params.MerkleProofs, d, i)
+//@   assert@before:ComputeInputHashDeletion merkle.delValid(params.PreRoot, params.DeletionIndices, params.IdComms, params.MerkleProofs, d, B) &&
+//@                      merkle.delRoot(params.PreRoot, params.DeletionIndices, params.IdComms, params.MerkleProofs, d, B) == params.PostRoot
+//@   assert@before:ComputeInputHashDeletion len(params.DeletionIndices) == B && len(params.IdComms) == B && len(params.MerkleProofs) == B &&
+//@                      (forall k :: 0 <= k && k < B ==> len(params.MerkleProofs[k]) == d)
+//@   assert@before:ComputeInputHashInsertion merkle.insValid(0, params.PreRoot, params.IdComms, params.MerkleProofs, d, B) &&
+//@                      merkle.insRoot(0, params.PreRoot, params.IdComms, params.MerkleProofs, d, B) == params.PostRoot
+//@   assert@before:ComputeInputHashInsertion len(params.IdComms) == B && len(params.MerkleProofs) == B &&
+//@                      (forall k :: 0 <= k && k < B ==> len(params.MerkleProofs[k]) == d)
